@@ -2,12 +2,15 @@
 Model of a contract creation frame as far as value is concerned (core/vm/evm.go create): the endowment moves from
 the creator to the new account, the constructor may send part of it off-chain through an ETX, and then the
 constructor ends.  Only a constructor that returns acceptable code (or none) lets the frame stand; a REVERT, an
-error, code starting with 0xEF or code above the size limit undo the whole frame.
+error, code starting with 0xEF or code above the size limit undo the whole frame.  One failure does not: when the gas
+left cannot pay for storing the returned code (`ErrCodeStoreOutOfGas`) the creation reports failure but the frame is
+kept as it is - the pre-Homestead rule of the code base this one descends from (`err != ErrCodeStoreOutOfGas` in
+`EVM.create`).
 -/
 namespace QuaiVerif.Create
 
 inductive Ending where
-  | code | ef | oversize | revert | invalid | stop
+  | code | ef | oversize | revert | invalid | stop | storeoog
   deriving DecidableEq, Repr
 
 def Ending.accepted : Ending → Bool
@@ -29,7 +32,9 @@ def inner (s : St) (endow ev : Nat) (emit : Bool) : St :=
 /-- one creation: `(state after, success)` -/
 def create (s : St) (endow ev : Nat) (emit : Bool) (e : Ending) : St × Bool :=
   if s.creator < endow then (s, false)
-  else if e.accepted then (inner s endow ev emit, true) else (s, false)
+  else if e.accepted then (inner s endow ev emit, true)
+  else if e = .storeoog then (inner s endow ev emit, false)      -- failure reported, nothing undone
+  else (s, false)
 
 def total (s : St) : Nat := s.creator + s.created + s.etxs.sum
 
